@@ -338,3 +338,38 @@ func TestReplayAdvanceBeyond32Bits(t *testing.T) {
 		}
 	}
 }
+
+// D8 / C01: repeated composite field whose term already exists: the location's own field name must be kept
+func TestReplayRepeatedCompositeFieldLocations(t *testing.T) {
+	doc := &FakeDocument{
+		NewFakeField("_id", "a", true, false, false),
+		NewFakeField("name", "wow", true, true, false),
+	}
+	doc.FakeComposite("_all", []string{"_id"})
+	doc.FakeComposite("_all", []string{"_id", "_all"}) // the field name _all occurs twice in the document
+	s := replayBuild(t, []segment.Document{doc}, 1024)
+	d, err := s.Dictionary("_all")
+	if err != nil {
+		t.Fatal(err)
+	}
+	pl, err := d.PostingsList([]byte("wow"), nil, nil)
+	if err != nil {
+		t.Fatal(err)
+	}
+	it, err := pl.Iterator(true, true, true, nil)
+	if err != nil {
+		t.Fatal(err)
+	}
+	p, err := it.Next()
+	if err != nil || p == nil {
+		t.Fatalf("no posting: %v", err)
+	}
+	if len(p.Locations()) != 2 {
+		t.Fatalf("expected 2 locations, got %d", len(p.Locations()))
+	}
+	for i, l := range p.Locations() {
+		if l.Field() != "name" {
+			t.Errorf("location %d of the composite field reports field %q, the input location says %q", i, l.Field(), "name")
+		}
+	}
+}
